@@ -406,3 +406,55 @@ Theorem C16_gen_call_transparent : forall c rq pi fs b sub fm,
   out_resp (fst (fst (gen_call c rq pi fs b sub fm))) = out_resp (fst (fst (gen_call c rq pi fs b sub []))).
 Proof. exact gen_call_transparent. Qed.
 Print Assumptions C16_gen_call_transparent.
+
+(* ------------------------------------------------------------ proof-only round: end to end for the regenerated program ----
+   [created_view s encmap us]: the instance the REGENERATED constructor builds from what was written -- gen_init directly,
+   or for add_static_view gen_make_spec, gen_static_add_spec and then gen_init called by pyramid.config;
+   [view_config]: the configuration the request functions read off its attributes. *)
+Require Import Verif.Proofs.C16_d.
+
+(* the regenerated constructor yields exactly the instance [configure] describes, for every form of spec and both ways
+   of creating the view *)
+Theorem C16_created_view_config : forall s encmap us, view_config s (created_view s encmap us) = configure s.
+Proof. exact created_view_config. Qed.
+Print Assumptions C16_created_view_config.
+
+(* configuration as written -> gen_init -> gen_call (gen_get_resource_name, gen_get_possible_files, gen_find_resource_path,
+   gen_find_best_match): every os.stat / open of one call, for any request, either way of obtaining the path tuple and any
+   filemap history that respects the root, is at or below the DESIGNATED directory; the filemap keeps respecting it *)
+Theorem C16_gen_end_to_end_contained : forall s fs encmap us rq pi b sub fm,
+  wf_setup s -> is_dir (walk fs [] (os_resolve (designated_dir s))) = true ->
+  let c := view_config s (created_view s encmap us) in
+  fm_ok c fm ->
+  forallb (fun e => beneath (os_resolve (designated_dir s)) (snd e)) (snd (gen_call c rq pi fs b sub fm)) = true /\
+  fm_ok c (snd (fst (gen_call c rq pi fs b sub fm))).
+Proof. exact gen_end_to_end_contained. Qed.
+Print Assumptions C16_gen_end_to_end_contained.
+
+(* X-VHM-ROOT starting with the bare view selector '@@' on a route mounting (the specification is silent about which
+   file that designates): the request is answered as request.subpath = rest of the virtual root, and every access
+   stays at or below the root *)
+Theorem C16_vroot_override_contained : forall c fs fm rq t,
+  wf c -> root_is_dir c fs -> fm_ok c fm -> vroot_gate c = Datatypes.inr (GOverride t) ->
+  contained c (snd (run_request c fs fm rq)) = true /\ fm_ok c (snd (fst (run_request c fs fm rq))).
+Proof. exact vroot_override_contained. Qed.
+Print Assumptions C16_vroot_override_contained.
+
+Theorem C16_vroot_override_serves : forall c fs fm rq t p0,
+  routed_by_route (c_mount c) = true -> Utf8.decode (Percent.unquote (r_raw rq)) = Some p0 ->
+  vroot_gate c = Datatypes.inr (GOverride t) -> route_matches c p0 = true ->
+  run_request c fs fm rq = serve c rq (Percent.unquote (r_raw rq)) fs fm t.
+Proof. exact vroot_override_serves. Qed.
+Print Assumptions C16_vroot_override_serves.
+
+(* ... and conformance end to end for the regenerated program: the answer of the regenerated __call__ on the instance the
+   regenerated constructor built conforms to the specification whose root is the designated directory *)
+Theorem C16_gen_end_to_end_conform : forall s fs encmap us rq pi b sub fm p t,
+  wf_setup s -> is_dir (walk fs [] (os_resolve (designated_dir s))) = true -> host_ok (s_base s) ->
+  let c := view_config s (created_view s encmap us) in
+  fm_exact c fs fm -> Utf8.decode pi = Some p -> gen_tuple b pi sub = Some t ->
+  conforms (out_resp (fst (fst (gen_call c rq pi fs b sub fm))))
+           (if forallb seg_ok t then spec_tail (spec_config s) rq fs (Some p) t else S404) = true /\
+  fm_exact c fs (snd (fst (gen_call c rq pi fs b sub fm))).
+Proof. exact gen_end_to_end_conform. Qed.
+Print Assumptions C16_gen_end_to_end_conform.
